@@ -44,6 +44,7 @@ def options_for(rng):
         func_of_param=rng.choice([0.0, 0.0, 0.0, 0.1]),
         funcs=rng.random() < 0.4,
         complex=rng.random() < 0.5,
+        brace_strings=False,    # the textual substitution of {p} must not meet braces inside string literals
     )
 
 
